@@ -1117,9 +1117,15 @@ func TestCheck(t *testing.T) {
 	timed("derive", func() { partDerive(run, rep) })
 	timed("sweep", func() { partSweep(run, rep, expired) })
 	timed("gc", func() { partGC(run, rep, expired) })
-	timed("history", func() { partHistory(run, rep, expired) })
-	timed("proof", func() { partProof(run, rep, expired) })
-	timed("order", func() { partOrder(run, rep, expired) })
+	if run.Quick() {
+		timed("history", func() { partHistory(run, rep, expired) })
+		timed("proof", func() { partProof(run, rep, expired) })
+		timed("order", func() { partOrder(run, rep, expired) })
+	} else {
+		timed("proof", func() { partProof(run, rep, expired) })
+		timed("order", func() { partOrder(run, rep, expired) })
+		timed("history", func() { partHistory(run, rep, expired) })
+	}
 
 	pprof.StopCPUProfile()
 	run.Set("cache_unloads_driven", trie.CacheUnloads()-unloads0)
@@ -1395,8 +1401,8 @@ func lenBucket(l int) string {
 // ---- part: proof ------------------------------------------------------------------------------------------
 
 func partProof(run *ev.Run, rep *reporter, expired func() bool) {
-	// quick: three XOR masks per byte; thorough: all 255 for content sets of <= 3 keys, the eight
-	// single-bit masks and 0xff for sets of 4
+	// quick: three XOR masks per byte; thorough: all 255 for content sets of <= 2 keys, the eight
+	// single-bit masks and 0xff for sets of 3 and 4
 	masks := []byte{0x01, 0x80, 0xff}
 	masks4 := masks
 	if run.Thorough() {
@@ -1432,7 +1438,7 @@ func partProof(run *ev.Run, rep *reporter, expired func() bool) {
 			steps = append(steps, "put:"+hexs(oc.f.keys[i])+":"+hexs(val(patKind(oc.pattern, i), i)))
 		}
 		mk := masks
-		if popcount(oc.mask) == 4 {
+		if popcount(oc.mask) >= 3 {
 			mk = masks4
 		}
 		for _, mode := range []int{0, 3} {
@@ -1457,7 +1463,7 @@ func partProof(run *ev.Run, rep *reporter, expired func() bool) {
 	}
 	run.Add("proof_verifications", verifs.Load())
 	run.Set("proof_alteration_masks_per_byte", len(masks))
-	run.Set("proof_alteration_masks_per_byte_sets_of_4", len(masks4))
+	run.Set("proof_alteration_masks_per_byte_sets_of_3_and_4", len(masks4))
 	run.Sample(map[string]interface{}{"part": "proof", "content_cases": len(cases), "verifications": verifs.Load(), "masks": len(masks)})
 }
 
@@ -1507,41 +1513,32 @@ func partHistory(run *ev.Run, rep *reporter, expired func() bool) {
 		f       *family
 		limit   uint16
 		reduced bool
+		from    int
 		depth   int
 	}
 	var plans []plan
-	dFull, dRed, dSec := 5, 0, 4 // quick: no reduced-alphabet extension
-	if run.Thorough() {
-		dFull, dRed, dSec = 6, 7, 5
+	V, F, S := famByName("V"), famByName("F"), famByName("S")
+	sec := func(d int) {
+		for _, lim := range []uint16{0, 1, 2} {
+			plans = append(plans, plan{S, lim, false, 1, d})
+		}
 	}
-	for _, f := range families {
-		if f.secure {
-			for _, lim := range []uint16{0, 1, 2} {
-				plans = append(plans, plan{f, lim, false, dSec})
-			}
-			continue
-		}
-		d := dFull
-		if run.Quick() && f.name == "V" {
-			d = dFull - 1 // quick: the variable-length family one level shallower
-		}
-		plans = append(plans, plan{f, 0, false, d})
-		if dRed > dFull {
-			plans = append(plans, plan{f, 0, true, dRed})
-		}
+	if run.Quick() {
+		// full alphabets: V to depth 4, F to depth 5; secure family to depth 4
+		plans = append(plans, plan{V, 0, false, 1, 4}, plan{F, 0, false, 1, 5})
+		sec(4)
+	} else {
+		// full alphabets to depth 5, secure to 5, then the reduced alphabet (2 keys, 11 operations) at
+		// depth 6 for V, and last - so that a deadline only cuts the deepest level - F at depth 6 in full
+		plans = append(plans, plan{V, 0, false, 1, 5}, plan{F, 0, false, 1, 5})
+		sec(5)
+		plans = append(plans, plan{V, 0, true, 6, 6}, plan{F, 0, false, 6, 6})
 	}
 	var total int64
 	for _, p := range plans {
 		ctx := newHistCtx(p.f, p.limit, false)
 		alpha := alphabet(p.f, p.reduced)
-		from := 1
-		if p.reduced {
-			from = dFull + 1 // shorter reduced sequences are a subset of the full-alphabet ones
-			if from > p.depth {
-				from = p.depth
-			}
-		}
-		for l := from; l <= p.depth; l++ {
+		for l := p.from; l <= p.depth; l++ {
 			done, skipped := enumerate(alpha, l, expired, func(seq []int) {
 				last := seq[len(seq)-1]
 				withProofs := cacheOp(last) && !run.Quick() // quick: proofs on reloaded tries are covered by the mode-3 scripts only
@@ -1563,7 +1560,7 @@ func partHistory(run *ev.Run, rep *reporter, expired func() bool) {
 				run.Class(fmt.Sprintf("history/%s/content=%d/last=%s", p.f.name, i/nOps, opNames[i%nOps]))
 			}
 		}
-		run.Set(fmt.Sprintf("history_depth_%s_limit%d_reduced%v", p.f.name, p.limit, p.reduced), p.depth)
+		run.Set(fmt.Sprintf("history_lengths_%s_limit%d_reduced%v_from%d", p.f.name, p.limit, p.reduced, p.from), p.depth)
 		run.Set(fmt.Sprintf("history_alphabet_%s_reduced%v", p.f.name, p.reduced), len(alpha))
 	}
 	run.Add("history_sequences", total)
@@ -1575,7 +1572,7 @@ func partHistory(run *ev.Run, rep *reporter, expired func() bool) {
 func partGC(run *ev.Run, rep *reporter, expired func() bool) {
 	depth := 5
 	if run.Thorough() {
-		depth = 7
+		depth = 6
 	}
 	alpha := make([]int, nGcOps)
 	for i := range alpha {
